@@ -337,3 +337,98 @@ def register(gen, T):
         out.append(f"def mslCbufferBecomesConstantBufferGlobal : Bool := {'true' if sc_ok and sc_called else 'false'}\n")
         out.append(T.footer("TargetTables"))
         return "".join(out)
+
+
+def _squash(s):
+    s = re.sub(r'\s+', ' ', s).strip()
+    return re.sub(r' ?([^A-Za-z0-9_ ]) ?', r'\1', s)
+
+
+def _register_cbuffer_tables(gen, T):
+    @gen("CbufferTables")
+    def cbuffer_tables():
+        from rustsrc import ExtractError, fn_body
+        out = [T.header("CbufferTables", ["ir/src/simplify_cbuffers.rs", "msl/src/lib.rs", "ir/src/ir_module.rs",
+                                          "hlsl/src/ast_generate.rs"])]
+        sc = _squash(fn_body(T.src("ir/src/simplify_cbuffers.rs"), "simplify_cbuffers"))
+        # the first half of the pass, verbatim: every cbuffer of the registry - no condition, no skip - gets a struct
+        # `<name>Type` with the members and an extern global `ConstantBuffer<struct>` with the cbuffer's name, language
+        # binding and api slot; then every `RootDefinition::ConstantBuffer` is replaced by the struct followed by the global
+        want = (
+            "let cbuffer_registry=std::mem::take(&mut module.cbuffer_registry);"
+            "let mut cbuffer_to_globals=HashMap::new();let mut member_to_expression=HashMap::new();"
+            "for(i,cbuffer)in cbuffer_registry.into_iter().enumerate(){"
+            "let cbuffer_id=ConstantBufferId(i as u32);"
+            "let struct_id=StructId(module.struct_registry.len()as u32);"
+            "let struct_type_id=module.type_registry.register_type(TypeLayer::Struct(struct_id));"
+            "let mut members=Vec::new();"
+            "for member in&cbuffer.members{members.push(StructMember{name:member.name.node.clone(),type_id:member.type_id,"
+            "semantic:None,interpolation_modifier:None,precise:false,});}"
+            "module.struct_registry.push(StructDefinition{id:struct_id,type_id:struct_type_id,"
+            "name:Located::none(format!(\"{}Type\",cbuffer.name.node)),namespace:cbuffer.namespace,members,methods:Default::default(),});"
+            "let object_type_id=module.type_registry.register_type(TypeLayer::Object(ObjectType::ConstantBuffer(struct_type_id,)));"
+            "let global_id=GlobalId(module.global_registry.len()as u32);"
+            "module.global_registry.push(GlobalVariable{name:cbuffer.name,namespace:cbuffer.namespace,type_id:object_type_id,"
+            "storage_class:GlobalStorage::Extern,lang_slot:cbuffer.lang_binding,api_slot:cbuffer.api_binding,init:None,"
+            "static_sampler:None,constexpr_value:None,is_intrinsic:false,is_bindless:false,});"
+            "cbuffer_to_globals.insert(cbuffer_id,(global_id,struct_id));"
+            "for member_index in 0..cbuffer.members.len(){member_to_expression.insert(ConstantBufferMemberId(cbuffer_id,member_index as u32),"
+            "Expression::StructMember(Box::new(Expression::Global(global_id)),struct_id,member_index as u32,),);}}"
+            "let mut new_definitions=Vec::new();"
+            "for def in std::mem::take(&mut module.root_definitions){match def{"
+            "RootDefinition::ConstantBuffer(id)=>{let(global_id,struct_id)=*cbuffer_to_globals.get(&id).unwrap();"
+            "new_definitions.push(RootDefinition::Struct(struct_id));new_definitions.push(RootDefinition::GlobalVariable(global_id));}"
+            "_=>new_definitions.push(def),}}"
+            "module.root_definitions=new_definitions;")
+        out.append("/-- simplify_cbuffers: the registry loop and the root-definition rewrite have exactly the modelled text -/\n")
+        out.append(f"def simplifyEveryCbuffer : Bool := {'true' if sc.startswith(want) else 'false'}\n\n")
+        msl = _squash(fn_body(T.src("msl/src/lib.rs"), "export_to_msl"))
+        first = msl.startswith("let mut module=module.clone();rssl_ir::simplify_cbuffers(&mut module);")
+        out.append("/-- export_to_msl runs the pass first, on its own copy of the (already bound) module -/\n")
+        out.append(f"def mslSimplifiesFirst : Bool := {'true' if first else 'false'}\n\n")
+        comp = _squash(fn_body(T.src("src/compile.rs"), "build_pipeline"))
+        order = (comp.find("let ir=ir.assign_api_bindings(binding_params);") >= 0 and
+                 comp.find("let ir=ir.assign_api_bindings(binding_params);") < comp.find("msl::export_to_msl(&ir)") and
+                 comp.find("let ir=ir.assign_api_bindings(binding_params);") < comp.find("hlsl::export_to_hlsl(&ir,"))
+        out.append("/-- build_pipeline assigns the api slots before either exporter runs -/\n")
+        out.append(f"def slotsAssignedBeforeExport : Bool := {'true' if order else 'false'}\n\n")
+        ab = _squash(fn_body(T.src("ir/src/ir_module.rs"), "assign_api_bindings"))
+        every = ("RootDefinition::ConstantBuffer(id)=>{let cb=&mut module.cbuffer_registry[id.0 as usize];"
+                 "let set=cb.lang_binding.set.unwrap_or(default_set);assert_eq!(cb.api_binding,None);{let index=match used_slots.entry(set){") in ab \
+            and "cb.api_binding=Some(ApiBinding{set,location:ApiLocation::Index(index)," in ab
+        out.append("/-- assign_api_bindings gives every cbuffer block an index slot, unconditionally -/\n")
+        out.append(f"def everyCbufferGetsASlot : Bool := {'true' if every else 'false'}\n\n")
+
+        # ---- where the HLSL generator lets the target-derived context show (per function of ast_generate.rs)
+        hl = T.src("hlsl/src/ast_generate.rs")
+        gm = _squash(fn_body(hl, "generate_module"))
+        once = gm.count("for_spirv") == 1 and "if for_spirv{analyse_per_primitive_attributes(&mut context);}" in gm
+        out.append("/-- generate_module reads `for_spirv` once: to decide whether the per-primitive analysis runs -/\n")
+        out.append(f"def forSpirvOnlyGuardsPerPrimitiveAnalysis : Bool := {'true' if once else 'false'}\n\n")
+        gs = _squash(fn_body(hl, "generate_struct"))
+        member_site = ("let mut attributes=Vec::new();if let Some(ir::Semantic::User(semantic))=&member.semantic&&"
+                       "context.per_primitive_semantics.contains(semantic){attributes.push(ast::Attribute{name:Vec::from(["
+                       "Located::none(\"vk\".to_string()),Located::none(\"ext_decorate\".to_string()),]),") in gs
+        gp = _squash(fn_body(hl, "generate_function_param"))
+        param_site = ("if for_pixel_entry&&let Some(ir::Semantic::User(semantic))=&param.semantic&&"
+                      "context.per_primitive_semantics.contains(semantic){declarator=declarator.insert_base(") in gp
+        gf = _squash(fn_body(hl, "generate_function_inner"))
+        fn_site = ("let for_pixel_entry=context.pixel_entry_for_mesh==Some(id);if for_pixel_entry{attributes.push(ast::Attribute{"
+                   "name:Vec::from([Located::none(\"vk\".to_string()),Located::none(\"ext_extension\".to_string()),]),") in gf and \
+            "params.push(generate_function_param(param,context,for_pixel_entry)?);" in gf
+        body_site = ("let mut statements=Vec::new();for statement in&decl.scope_block.0{statements.push(generate_statement(statement,context)?);}"
+                     "Some(statements)") in gf
+        out.append("/-- the three places where the per-primitive analysis shows: a `[[vk::ext_decorate]]` on struct members and on the\n"
+                   "    parameters of the pixel entry point, two `[[vk::ext_..]]` attributes on the pixel entry point; the body of a\n"
+                   "    function is `generate_statement` over its statements, with no further argument -/\n")
+        out.append(f"def perPrimitiveSitesAsModelled : Bool := {'true' if member_site and param_site and fn_site and body_site else 'false'}\n")
+        out.append(T.footer("CbufferTables"))
+        return "".join(out)
+
+
+_old_register_c18 = register
+
+
+def register(gen, T):  # noqa: F811
+    _old_register_c18(gen, T)
+    _register_cbuffer_tables(gen, T)
